@@ -25,9 +25,9 @@ Ops(addrs, keys, ttls) ==
   \cup {[op |-> "ts_stopaddr", a |-> a] : a \in addrs} \cup {[op |-> "ts_stopall"]}
   \cup {[op |-> "ts_stopmatch", keys |-> <<k>>] : k \in keys}
 
-Q_Cfg == [addrs |-> <<"a1">>, keys |-> <<"k1", "k2">>, maxId |-> 3, timerPhase |-> TRUE, watch0 |-> <<>>]
+Q_Cfg == [addrs |-> <<"a1">>, keys |-> <<"k1", "k2">>, timerPhase |-> TRUE, watch0 |-> <<>>] @@ CfgDefault
 Q_Inputs == Ops({"a1"}, {"k1", "k2"}, {1, 2, FOREVER})
-T_Cfg == [addrs |-> <<"a1", "a2">>, keys |-> <<"k1", "k2">>, maxId |-> 3, timerPhase |-> TRUE, watch0 |-> <<>>]
+T_Cfg == [addrs |-> <<"a1", "a2">>, keys |-> <<"k1", "k2">>, timerPhase |-> TRUE, watch0 |-> <<>>] @@ CfgDefault
 T_Inputs == Ops({"a1", "a2"}, {"k1", "k2"}, {1, 2, BIG, FOREVER})
 NoMatch == <<>>
 NoSw == AllOff
